@@ -174,3 +174,20 @@ Definition to_notation (m : Ply) : string :=
    end)%string.
 Definition find_move (b : Board) (notation : string) : option Ply :=
   find (fun m => String.eqb (to_notation m) notation) (get_legal_moves b).
+
+(* The Rust get_legal_moves takes &mut self: every legality probe makes and unmakes the move
+   on the live board.  This version threads the board the way the code does, so that "asking
+   for the legal moves does not change the position" is a statement about the model (C02). *)
+Definition is_legal_move_st (b : Board) (m : Ply) : bool * option Board :=
+  let b' := make_move b m in
+  (negb (is_in_check b' (snd (p_piece m))), unmake_move b').
+Fixpoint retain_legal (b : Board) (ms : list Ply) : list Ply * option Board :=
+  match ms with
+  | [] => ([], Some b)
+  | m :: t =>
+    match is_legal_move_st b m with
+    | (ok, Some b1) => let (l, r) := retain_legal b1 t in ((if ok then m :: l else l), r)
+    | (_, None) => ([], None)
+    end
+  end.
+Definition get_legal_moves_st (b : Board) : list Ply * option Board := retain_legal b (get_all_moves b).
